@@ -20,7 +20,9 @@ DOCS = [["/etc/leading/slash"], [" ends with a star *"], ["*/"], [" first", "/se
         # several attributes, one of them holding several lines x what the continuation line begins with
         [" Where:", " first, then\n/etc/app/config.toml"], [" a", "b\n/"], [" x\n/**", " y"], ["\n/", ""], [" p\n*/ q", "/r"], [" k\n\n/ after blank", " z"],
         # empty lines: inside one attribute, at its ends, across attributes, nothing but newlines
-        [" block\n\n with an empty line "], [" ends with a newline\n", "\nbegins with one"], ["\n\n\n"], [" x\n\n\n/y\n", "", "\n"], ["\n", "\n"]]
+        [" block\n\n with an empty line "], [" ends with a newline\n", "\nbegins with one"], ["\n\n\n"], [" x\n\n\n/y\n", "", "\n"], ["\n", "\n"],
+        # braces: documentation is text, never a format template
+        [" rendered as {{name}} with {0} and {1}"], [" json {\"a\": 1} and a lone { and }"]]
 EXPORT_TO = [None, None, None, "sub/", "nested/deep/", "custom/File.ts", "../up/", "shared.ts", "shared.ts", "sub/shared2.ts", ".dot/", "sub/.hidden.ts"]
 
 
@@ -464,6 +466,11 @@ class Gen:
         self.add(mk_enum("MidFixed", [mk_variant("X", "tuple", [mk_field("_0", ("param", 0))]), mk_variant("Y", "named", [mk_field("m", ("param", 1)), mk_field("c", ("param", 2))])],
                          params=[("A", None), ("B", None), ("C", ("leaf", "bool"))], concrete=[(1, ("leaf", "String"))], tagging=("adjacent", "t", "c"),
                          flatten_ok=False, no_ref=True))
+        # a concretised parameter that also has a default: it leaves the header all the same
+        self.add(mk_struct("PinnedDef", "named", [mk_field("t", ("param", 0)), mk_field("ts", ("vec", ("param", 0)))],
+                           params=[("T", ("leaf", "String"))], concrete=[(0, ("leaf", "i32"))], flatten_ok=False, no_ref=True))
+        self.add(mk_struct("MixedDef", "named", [mk_field("a", ("param", 0)), mk_field("d", ("param", 1)), mk_field("b", ("param", 2))],
+                           params=[("A", None), ("D", ("leaf", "String")), ("B", ("leaf", "bool"))], concrete=[(1, ("leaf", "i32"))], flatten_ok=False, no_ref=True))
         self.add(mk_struct("AllFixed", "tuple", [mk_field("_0", ("param", 0)), mk_field("_1", ("param", 1))],
                            params=[("A", None), ("B", None)], concrete=[(0, ("leaf", "u8")), (1, ("leaf", "bool"))], flatten_ok=False, no_ref=True))
         self.add(mk_struct("FixedHost", "named", [mk_field("h", ("named", "HeadFixed", [("leaf", "i32"), ("leaf", "String")])),
@@ -589,6 +596,9 @@ class Gen:
         self.add(mk_struct("RootAB2", "named", [mk_field("a", ("named", "UseA2", [])), mk_field("b", ("option", ("named", "UseB2", [])))], flatten_ok=False, no_ref=True))
         # `as` on a variant that is printed as its bare name (unit): the `as` type is visited all the same (C03 known class as_on_bare_variant)
         self.add(mk_enum("KfAsUnit", [mk_variant("A", "unit", [], as_=("named", "Foo", [])), mk_variant("B", "tuple", [mk_field("_0", ("leaf", "i32"))])], no_ref=True))
+        self.add(mk_struct("DocBraces", "named", [mk_field("a", ("leaf", "i32"), docs=[" rendered as {{name}} with {0} and {1}"]),
+                                                  mk_field("b", ("named", "Foo", []), docs=[" json {\"a\": 1} and a lone { and }"], inline=True)],
+                           docs=[" type level {0} {{x}}"], flatten_ok=False, no_ref=True))
         # a zero-length array of a named type: its text `[]` mentions nothing, so nothing may be imported for it (C03)
         self.add(mk_struct("ZeroArr", "named", [mk_field("none", ("array", 0, ("named", "Foo", []))),
                                                 mk_field("maybe", ("option", ("array", 0, ("named", "Foo", [])))), mk_field("n", ("leaf", "u8"))],
